@@ -119,6 +119,38 @@ def flow_col_atol(scn, ref, times):
     return out
 
 
+def solver_slack(scn, ref, times):
+    """SOLVER_SLACK with the head allowance widened where heads are ill-conditioned: the mass-balance residual tolerance (1e-6 m3/s)
+    maps to a head error of |dH/dQ| x 1e-6 behind a pump (H-Q curves are steep: thousands of m per m3/s at small flows)."""
+    from . import refmodel
+    worst = 0.0
+    fl = ref.link['flowrate']
+    for l in scn['links']:
+        if l['type'] != 'pump':
+            continue
+        try:
+            q = float(fl.loc[times, l['id']].abs().min()) if len(times) else 0.0
+        except Exception:  # noqa
+            q = 0.0
+        q = max(q, 1e-4)
+        if l.get('kind') == 'POWER':
+            slope = l['power'] / (refmodel.RHO * refmodel.G * q * q)
+        else:
+            co = refmodel.pump_coeffs(scn['curves'][l['curve']]['points'])
+            if co is None:
+                slope = 1e4
+            else:
+                A, B, C = co
+                qmax = float(fl.loc[times, l['id']].abs().max()) if len(times) else q
+                slope = abs(B * C * max(qmax, q) ** (C - 1.0))
+        worst = max(worst, slope)
+    extra = min(2e-6 * worst, 0.05)
+    out = dict(SOLVER_SLACK)
+    out['head'] = (SOLVER_SLACK['head'][0] + extra, SOLVER_SLACK['head'][1])
+    out['pressure'] = (SOLVER_SLACK['pressure'][0] + extra, SOLVER_SLACK['pressure'][1])
+    return out
+
+
 def compare_tables(res, ref, times, rtol=1e-6, atol=1e-7, keys=None, exact_keys=('status',), label='prefix',
                    slack=None, col_atol=None):
     """res and ref must agree on the rows `times`.  slack: optional dict key -> (atol, rtol)."""
